@@ -240,6 +240,26 @@ def python_kernel_record(repo, fn):
         raise AnalysisError(f"{fn.qualname}: python kernel without yield")
     from .forms import value_cases
     cases = [(leaf, f) for node, leaf, f in value_cases(fn, "yield")]
+    # a positional kernel written without try/except IndexError: one yield whose value selects an element of the group
+    # by the index parameter.  Decided exactly by interpreting the (temporaries-expanded) expression on lists of every
+    # small length for every ordering of the index (sa/intpred.py).
+    if len(ys) == 1 and "index" in fn.all_params and rec["groups"] is not None:
+        from .forms import expand
+        from .intpred import selects_like_indexing
+        loopvar = None
+        for l in loops:
+            if isinstance(l.iter, ast.Call) and norm(l.iter.func).startswith("yield_groups") and isinstance(l.target, ast.Name):
+                loopvar = l.target.id
+        if loopvar is not None and ys[0].value is not None:
+            e = expand(fn, ys[0].value, ys[0], keep=(loopvar, "index"))
+            if any(isinstance(n, ast.Name) and n.id == "index" for n in ast.walk(e)):
+                verdict, wit = selects_like_indexing(e, "index", loopvar)
+                if verdict is not None:
+                    rec["stat"] = ("index", {"_idx": "index"})
+                    rec["k"] = 1
+                    rec["d"] = "None"
+                    rec["positional"] = (verdict, wit, norm(e))
+                    return rec
     tc = threshold_cases(cases)
     if tc is None:
         raise AnalysisError(f"{fn.qualname}: cannot read threshold/default of the python kernel from its {len(cases)} yield case(s)")
@@ -363,6 +383,7 @@ def group_form(repo, fn):
         rec["stat"] = [(kr["stat"][0], kr["stat"][1])]
         rec["k"] = kr["k"]
         rec["kernel_default"] = kr["d"]
+        rec["positional"] = kr.get("positional")
     kd = rec["kernel_default"]
     rec["d"] = rec["default_attr"] if kd in (None, "None") else kd
     return rec
